@@ -107,7 +107,8 @@ class Context:
         rc = 0
         replay_paths = []
         if unmatched:
-            unmatched.sort(key=lambda t: (t[0], t[1]))
+            from .core import vsort
+            unmatched.sort(key=lambda t: (vsort((t[0], None, None))[:2], t[1]))
             for size, key, n, lst in unmatched:
                 size, sig, case, msg = lst[0]
                 # reproduce in this process before reporting
